@@ -829,6 +829,29 @@ template <class L, bool UND> static SlotBase *roundtripImpl(const GrSlot<L, UND>
 }
 
 // ---------------------------------------------------------------- main loop
+
+// swapbytes <kind> <token>: the public io::swapBytes on a value of the label type (the big-endian code path of
+// the binary codec, dead on this host) and the host's endianness as the library detects it
+template <class T> static std::string swapBytesOf(long long tok) {
+    T v = LK<T>::of(tok);
+    BaseGraph::io::swapBytes(v);
+    std::string raw(reinterpret_cast<const char *>(&v), sizeof(T));
+    return "ok bytes=" + toHex(raw) + " be=" + (BaseGraph::io::_isSystemBigEndian() ? "1" : "0");
+}
+static bool swapBytesVerb(const std::string &kind, const std::string &tok, std::string &out) {
+    long long l;
+    if (!pl(tok, l)) return false;
+    if (kind == "chr") out = swapBytesOf<char>(l);
+    else if (kind == "i16") out = swapBytesOf<short>(l);
+    else if (kind == "int") out = swapBytesOf<int>(l);
+    else if (kind == "uint") out = swapBytesOf<unsigned>(l);
+    else if (kind == "i64") out = swapBytesOf<long long>(l);
+    else if (kind == "flt") out = swapBytesOf<float>(l);
+    else if (kind == "dbl") out = swapBytesOf<double>(l);
+    else return false;
+    return true;
+}
+
 int main(int argc, char **argv) {
     std::ios::sync_with_stdio(false);
     if (getenv("BGH_TMP")) setenv("BGH_TMP_SAVED", getenv("BGH_TMP"), 1);
@@ -861,6 +884,9 @@ int main(int argc, char **argv) {
                 SlotBase *s = newSlot(w[2], w[3], n);
                 if (s) { slots[a].reset(s); out << "R ok\n"; s->dump(out, a); ok = true; }
             }
+        } else if (verb == "swapbytes" && w.size() == 3) {
+            std::string r;
+            if (swapBytesVerb(w[1], w[2], r)) { out << "R " << r << "\n"; ok = true; }
         } else if (verb == "dump" && w.size() == 2) {
             if (pi(w[1], a)) { ok = true; auto it = get(a); if (!it) out << "D " << a << " empty\n"; else it->dump(out, a); }
         } else if (verb == "q" && w.size() >= 3) {
